@@ -10,9 +10,8 @@ Proof. vm_compute. reflexivity. Qed.
 (* every place where an Iterate / StepResult is constructed is of a known kind ... *)
 Theorem C05_iterate_sites_classified : forallb iterate_site_ok iterate_sites = true.
 Proof. vm_compute. reflexivity. Qed.
-(* ... and the only one that is not start / clipped step / copy / clip is the Globalized line search (known finding F8) *)
-Theorem C05_only_known_unclipped_site :
-  unclipped_sites iterate_sites = [("newton.py", "GlobalizedNewtonMethod.step", "Iterate", "iterate.x - dx")].
+(* ... and none of them is an unclipped line-search trial (the Globalized line search was one: F8, fixed) *)
+Theorem C05_no_unclipped_site : unclipped_sites iterate_sites = [].
 Proof. vm_compute. reflexivity. Qed.
 (* every call of a problem callback goes through an Iterate, is forwarded by a wrapper with its own argument,
    happens at the start point, or is one of the two exempt places (scaling point, derivative check) *)
